@@ -502,7 +502,9 @@ def _algebra_self(ctx):
     class C2B:
         def items(self):
             return Canon2BinItems(ctx, N)
-    me = sym('self', attrs={'bin2canon': Bin2Canon(), 'canon2bin': C2B(), 'signs': signs, 'd': d})
+    from kvc.values import SBool as _SB
+    basis = sym('self.basis', truth=_SB(z3.Bool('custom_basis_given')))
+    me = sym('self', attrs={'bin2canon': Bin2Canon(), 'canon2bin': C2B(), 'signs': signs, 'd': d, 'basis': basis})
     return me, N, d, signs
 
 
@@ -751,46 +753,59 @@ def vc_bladedict_getitem(H):
             return name.valid
     for valid in (True, False):
         for cached in (True, False):
-            def body(ctx, valid=valid, cached=cached):
-                swaps = SInt(z3.Int('swaps'))
-                ctx.assume(swaps.t >= 0)
-                canon = sym('canonical-name')
-                name = sym('requested-name')
-                name.valid = valid
-                graded = SBool(z3.Bool('graded'))
-                blade = sym('stored-blade')
-                blades = sym('blades', on_contains=lambda i, me, item: cached and same(item, canon),
-                             on_getitem=lambda i, me, idx: blade)
-                alg = sym('algebra', attrs={'graded': graded,
-                                            '_blade2canon': sym('_blade2canon', callable_result=lambda i, m, a, k: (canon, swaps))})
-                me = sym('self', attrs={'algebra': alg, 'blades': blades})
-                interp = Interp(ctx, source_name=REL)
-                MVc = sym('MultiVector')
-                try:
-                    r = H.closure(interp, fuc, {'re': ReModel, 'MultiVector': MVc})(me, name)
-                    raised = None
-                except AttributeError as e:
-                    r, raised = None, e
-                if not valid:
-                    ctx.oblige('post: a name that is not e<hex digits> raises AttributeError', raised is not None)
-                    if raised:
-                        raise raised
-                    return r
-                if raised:
-                    ctx.oblige('post: valid names do not raise', False)
-                    raise raised
-                stores = [e for e in ctx.events if e[0] == 'setitem']
-                if cached:
-                    ctx.oblige('post: an existing blade is not rebuilt', not stores)
-                else:
-                    ctx.oblige('post: the blade is stored under its canonical name', len(stores) == 1 and stores[0][1] is blades and same(stores[0][2], canon))
-                    if stores:
-                        blade_v = stores[0][3]
-                    else:
+            for graded in (False, True):
+                def body(ctx, valid=valid, cached=cached, graded=graded):
+                    swaps = SInt(z3.Int('swaps'))
+                    ctx.assume(swaps.t >= 0)
+                    canon = sym('canonical-name')
+                    name = sym('requested-name')
+                    name.valid = valid
+                    blade = sym('stored-blade')
+                    blades = sym('blades', on_contains=lambda i, me, item: cached and same(item, canon),
+                                 on_getitem=lambda i, me, idx: blade)
+                    BIN = 5                                     # the key of the requested blade (grade 2)
+                    made = []
+                    alg = sym('algebra', attrs={'graded': graded,
+                                                'canon2bin': sym('canon2bin', on_getitem=lambda i, me, idx: BIN if same(idx, canon) else None),
+                                                'indices_for_grade': {0: (0,), 1: (1, 2, 4), 2: (3, 5, 6), 3: (7,)},
+                                                'multivector': sym('alg.multivector', callable_result=lambda i, m, a, k: made.append(('mv', a, k)) or sym('new-graded-blade')),
+                                                '_blade2canon': sym('_blade2canon', callable_result=lambda i, m, a, k: (canon, swaps))})
+                    me = sym('self', attrs={'algebra': alg, 'blades': blades})
+                    interp = Interp(ctx, source_name=REL)
+                    MVc = sym('MultiVector', attrs={'fromkeysvalues': sym('fromkeysvalues', callable_result=lambda i, m, a, k: made.append(('fkv', a, k)) or sym('new-blade'))})
+                    try:
+                        r = H.closure(interp, fuc, {'re': ReModel, 'MultiVector': MVc})(me, name)
+                        raised = None
+                    except AttributeError as e:
+                        r, raised = None, e
+                    if not valid:
+                        ctx.oblige('post: a name that is not e<hex digits> raises AttributeError', raised is not None)
+                        if raised:
+                            ctx.notes.append('expected-raise'); raise raised
                         return r
-                b = blade if cached else stores[0][3]
-                odd = ctx.decide(swaps.t % 2 == 1)
-                exp = Rec('unop', 'USub', b) if odd else b
-                ctx.oblige('post: blade by any spelling == (-1)^swaps * canonical blade', same(r, exp), meta={'got': repr(r), 'expected': repr(exp)})
-                return r
-            H.run_paths(fuc, f'valid={valid},cached={cached}', body)
+                    if raised:
+                        ctx.oblige('post: valid names do not raise', False)
+                        ctx.notes.append('expected-raise'); raise raised
+                    stores = [e for e in ctx.events if e[0] == 'setitem']
+                    if cached:
+                        ctx.oblige('post: an existing blade is not rebuilt', not stores and not made)
+                        b = blade
+                    else:
+                        ok = len(stores) == 1 and stores[0][1] is blades and same(stores[0][2], canon) and len(made) == 1
+                        ctx.oblige('post: the blade is built once and stored under its canonical name', bool(ok))
+                        if not ok:
+                            return r
+                        b = stores[0][3]
+                        kind, a, k = made[0]
+                        if graded:
+                            ctx.oblige('post (graded): unit coefficient at the position of the blade within its complete grade',
+                                       kind == 'mv' and k.get('values') == [0, 1, 0] and k.get('grades') == (2,), meta={'got': repr((a, k))})
+                        else:
+                            aa = list(a) + [k.get(x) for x in ('keys', 'values') if x in k]
+                            ctx.oblige('post: the blade is fromkeysvalues(algebra, (key,), [1])',
+                                       kind == 'fkv' and aa[0] is alg and tuple(aa[1]) == (BIN,) and list(aa[2]) == [1], meta={'got': repr((a, k))})
+                    odd = ctx.decide(swaps.t % 2 == 1)
+                    exp = Rec('unop', 'USub', b) if odd else b
+                    ctx.oblige('post: blade by any spelling == (-1)^swaps * canonical blade', same(r, exp), meta={'got': repr(r), 'expected': repr(exp)})
+                    return r
+                H.run_paths(fuc, f'valid={valid},cached={cached},graded={graded}', body)
